@@ -96,7 +96,7 @@ package gzip
 
 //@ func (*Reader).Read
 //@   requires grBase(z)
-//@   modifies *z, **z.decompressor, **z.r, p[*], extReads, peekErr, lastReadN, lastReadErr, rfErr, rfN, lastCrc, unixCalls, lastUnixSec, lastStdResetDictNil, lastByteErr
+//@   modifies *z, **z.decompressor, **z.r, p[*], extReads, peekErr, lastReadN, lastReadErr, rfErr, rfN, lastCrc, unixCalls, lastUnixSec, lastStdResetDictNil, lastByteErr, asmErrno, asmCalls
 //@   ensures[C07 C08 C15 sticky] old(z.err) != nil ==> n == 0 && err == old(z.err) && extReads == old(extReads)
 //@   ensures[C07 C15 err-recorded] err != nil && err != io.EOF ==> z.err == err
 //@   ensures[C07 n-in-range] 0 <= n && n <= len(p)
@@ -107,6 +107,7 @@ package gzip
 //@   ensures@6[C07 size-checked] le32(z.buf[:], 4) == old(z.size) + uint32(n) || le32(z.buf[:], 4) == uint32(n)
 //@   ensures@7[C07 C08 next-member] z.multistream && (err == io.EOF ==> rfN == 0 && rfErr == io.EOF)
 //@   ensures@3[C15 src-err] err != io.EOF
+//@   assert call Uint32 1 [C07 C15 trailer-read-ok] rfErr == nil && rfN == 8
 //@   assert call ReadFull 1 [C11 no-data-held] typeis(z.decompressor, *github.com/intel/fastgo/compress/flate.decompressor) ==> n == 0
 //@   loop 1 invariant grBase(z) && z.err == nil && 0 <= n && n <= len(p) && (z.size == old(z.size) || z.size == 0)
 
@@ -115,6 +116,7 @@ package gzip
 //@   modifies z.buf, z.digest, *z.r, extReads, lastCrc, lastByteErr
 //@   ensures brOK(z.r)
 //@   ensures[C15 src-err] result1 != nil && result1 != ErrHeader ==> result1 == lastByteErr
+//@   ensures@1[C06 string-limit] i >= 512
 //@   loop 1 invariant 0 <= i && brOK(z.r)
 //@   loop 1 invariant[C06 latin1-read] forall k :: 0 <= k && k < i && k < len(z.buf) ==> z.buf[k] != 0 && (z.buf[k] > 127 ==> needConv)
 
